@@ -70,6 +70,12 @@ def run_shard(ctx: Any) -> None:
             first = sorted(case["hists"])[0]
             case["hists"][first] = families.tiny_fee_transfer(ctx.rng("tiny-fee", index), first)
             case["from"] = case["to"] = None
+            # the replaced asset has years of its own: a schedule drawn for the original histories may not cover them
+            method = next(iter(case["schedule"].values()), "fifo") if case.get("schedule") else "fifo"
+            if case["ini_methods"] or "-m" not in case["args"]:
+                case["args"] = ["-m", method] + [a for a in case["args"] if a != "-m"]
+                case["ini_methods"] = {}
+                case["schedule"] = {"1970": method}
             ctx.count("reports_with_a_transfer_fee_worth_less_than_5e-14")
         _one(ctx, expected, case, f"c13-{index}")
 
